@@ -168,6 +168,50 @@ def job_step(jc, L):
     jc.sample(dict(step_buffer_bytes=L, paths=eng.st.paths))
 
 
+def job_dcode(jc, L):
+    """DCode.get_instructions asked twice on the same object: [return-void][L symbolic bytes].  Whatever the first call does
+    (a stream that covers the code, or InvalidInstruction), the second call must do the same - a failed sweep must not
+    leave a partial stream behind"""
+    dex = common.dexmod()
+    cm = StubCM(dex)
+    E.RANGE_CAP[0] = 40
+    B = [fresh_byte('b%d' % i) for i in range(L)]
+    buf = SBytes([0x0e, 0x00] + B)
+    eng = jc.new_engine()
+    label = 'DCode asked twice, L=%d' % L
+
+    def outcome(d):
+        try:
+            return ('ok', [(type(i).__name__, i.get_length()) for i in d.get_instructions()])
+        except dex.InvalidInstruction:
+            return ('invalid', None)
+
+    def go():
+        d = dex.DCode(cm, 0, (L + 2) // 2, buf)
+        return outcome(d), outcome(d)
+
+    def ext(m):
+        return dict(kind='dcode', bytes=mbytes(m, B).hex())
+    for pc, (kind, r) in eng.explore(go, keep_pcs=True):
+        jc.reached('dcode')
+        if kind == 'exc':
+            jc.obligation(eng, pc, z3.BoolVal(False), ext, label=label, what='raised %r' % (r,))
+            continue
+        a, b = r
+        same = a[0] == b[0] and (a[0] == 'invalid' or (len(a[1]) == len(b[1]) and all(x[0] == y[0] for x, y in zip(a[1], b[1]))))
+        terms = [z3.BoolVal(same)]
+        if same and a[0] == 'ok':
+            terms += [bv(x[1]) == bv(y[1]) for x, y in zip(a[1], b[1])]
+            tot = bv(0)
+            for x in a[1]:
+                tot = tot + bv(x[1])
+            terms.append(tot == L + 2)
+        jc.obligation(eng, pc, z3.And(terms), ext, label=label,
+                      what='second disassembly of the same code differs from the first (%s then %s)' % (a[0], b[0]))
+    eng.partition_guard()
+    jc.sample(dict(dcode_symbolic_bytes=L, paths=eng.st.paths))
+
+
 # ------------------------------------------------------------------ (b) assembled streams with symbolic operands
 def make_stream(rnd, k):
     ops = []
@@ -248,6 +292,8 @@ def job_stream(jc, spec):
 def _dispatch(jc, spec):
     if spec[0] == 'step':
         return job_step(jc, spec[1])
+    if spec[0] == 'dcode':
+        return job_dcode(jc, spec[1])
     return job_stream(jc, spec[1])
 
 
@@ -263,7 +309,8 @@ def run(ctx):
         if i % 4 == 0:
             ops[0] = rnd.choice([0xfe, 0xff])
         streams.append((ops, [None, 'packed', 'sparse', 'fill'][i % 4], '%d' % i))
-    ctx.bounds = dict(step_lemma='first instruction of a buffer of L fully symbolic bytes, L in %s (all 65536 first code units, '
+    ctx.bounds = dict(dcode_twice='[return-void] + 2 (thorough: 4) symbolic bytes through DCode.get_instructions twice on one object',
+                      step_lemma='first instruction of a buffer of L fully symbolic bytes, L in %s (all 65536 first code units, '
                                  'truncation at every L)' % Ls,
                       payloads='declared sizes are symbolic; unwinding cap 40 elements',
                       streams='%d seeded streams of 1..4 valid opcodes (+ optional aligned payload) with all operand bytes symbolic' % nstreams)
@@ -276,8 +323,8 @@ def run(ctx):
              '00030200030000aabb', '3e00', '1b0001000000', '0002010001000000' '05000000', '7100', '00020100', 'ff00']
     cases += [rnd.randbytes(rnd.randrange(2, 14) * 2).hex() for _ in range(60)]
     ctx.diff_unhooked(sys.modules[__name__], cases)
-    jobs = [('step', L) for L in Ls] + [('stream', s) for s in streams]
-    ctx.expect_reach(['step', 'stream'])
+    jobs = [('step', L) for L in Ls] + [('stream', s) for s in streams] + [('dcode', L) for L in ([2] + ([4] if ctx.thorough else []))]
+    ctx.expect_reach(['step', 'stream', 'dcode'])
     ctx.pmap(_dispatch, jobs)
 
 
@@ -290,6 +337,16 @@ def concrete(c):
 
 def replay(w):
     from androguard.core import dex
+    if w.get('kind') == 'dcode':
+        bs = b'\x0e\x00' + bytes.fromhex(w['bytes'])
+        d = dex.DCode(StubCM(dex), 0, len(bs) // 2, bs)
+        outs = []
+        for _ in range(2):
+            try:
+                outs.append(['ok', [[type(i).__name__, i.get_length()] for i in d.get_instructions()]])
+            except dex.InvalidInstruction:
+                outs.append(['invalid', None])
+        return outs[0] != outs[1], 'code %s: first disassembly %r, second disassembly of the same DCode %r' % (bs.hex(), outs[0], outs[1])
     bs = bytes.fromhex(w['bytes'])
     got, end = observe_sweep(dex, bs, len(bs) // 2)
     exp, stop = spec_sweep(bs)
